@@ -55,3 +55,32 @@ Theorem C01_records_roundtrip : forall sizes (recs : list (rnode * wire)) env t 
            /\ sync T (enc_records env t recs ws) rs'.
 Proof. exact wire_roundtrip_records. Qed.
 Print Assumptions C01_records_roundtrip.
+
+(* ---- whole stream: var header frame + any number of data frames (any restart flags, empty frames
+   included), raw bytes in, every record out, in order, with the values of the apply chain, then a
+   clean end.  The only hypotheses: the reader opened on the header, and the boolean stream_ok
+   (frame limits, column sizes, wire_ok of every record against the value the reader holds), which the
+   correspondence check evaluates on the streams the implementation really emits. *)
+From Stef Require Import Frame FrameFacts Reader StreamFactsBase StreamFacts.
+
+Theorem C01_stream_roundtrip_bytes : forall sc root sizes fuel hfl hdr t frames r0 kr k,
+  frame_okb hfl hdr = true ->
+  reader_open sc root (SrcBytes (emit_frame hfl hdr ++ emit_all (stream_encode t wst0 frames))) = inr r0 ->
+  rd_tree r0 = t ->
+  stream_ok sizes fuel t frames wst0 RNil (PM.empty _) = true ->
+  (length frames < kr)%nat -> (length (concat (map snd frames)) < k)%nat ->
+  read_all sizes fuel kr k r0 =
+  (concat (map snd frames), stream_values t frames RNil (PM.empty _), Some RdEnd).
+Proof. exact stream_roundtrip_open_bytes. Qed.
+Print Assumptions C01_stream_roundtrip_bytes.
+
+(* the same over already-split frames (zstd streams are decompressed frame by frame by the harness) *)
+Theorem C01_stream_roundtrip_frames : forall sc root sizes fuel hfl hdr t frames trunc r0 kr k,
+  reader_open sc root (SrcFrames ((hfl, hdr) :: stream_encode t wst0 frames) trunc) = inr r0 ->
+  rd_tree r0 = t ->
+  stream_ok sizes fuel t frames wst0 RNil (PM.empty _) = true ->
+  (length frames < kr)%nat -> (length (concat (map snd frames)) < k)%nat ->
+  read_all sizes fuel kr k r0 = (concat (map snd frames), stream_values t frames RNil (PM.empty _),
+                                 Some (if trunc then RdErr true EEof else RdEnd)).
+Proof. exact stream_roundtrip_open. Qed.
+Print Assumptions C01_stream_roundtrip_frames.
